@@ -743,7 +743,74 @@ def r5_dirname(prog, res):
             facts={"paths": total, "paths_without_schema": bad})
 
 
+def r7_recorded_after_printed(prog, res):
+    """The generator keeps a list of the schemas whose files it has written, and a catch-up loop writes the files of every schema that
+    is not on it (a schema without entities and types is never printed by the pass loop, but the scanner predicts its files).  A schema
+    may therefore be put on a local list only on paths on which a function that receives both that schema and the function's FILES
+    parameter (the printer) has been called since the schema variable was last assigned: recorded means printed."""
+    from engines import call_args
+    n = 0
+    for f in prog.all_functions():
+        if f.component != "exp2cxx" or f.cfg is None:
+            continue
+        fparams = [p_["d"] for p_ in f.params if "FILES" in ((f.tyname(p_["t"]) if isinstance(p_.get("t"), int) else "") or "") or
+                   "file_holder" in ((f.tyname(p_["t"]) if isinstance(p_.get("t"), int) else "") or "")]
+        if not fparams:
+            continue
+        for c in f.calls("LISTadd_last"):
+            a = call_args(c)
+            if len(a) != 2:
+                continue
+            lst, val = strip(a[0]), strip(a[1])
+            while val is not None and val["k"] == "Cast" and val.get("ch"):
+                val = strip(val["ch"][0])
+            if lst is None or val is None or lst["k"] != "Ref" or lst.get("dk") != "local" or val["k"] != "Ref" or "Scope_" not in (f.ty(val) or ""):
+                continue
+            v = val["d"]
+            # a done-list: some loop over the list tests its elements for identity with a scope (membership test that skips work)
+            member = False
+            for comp in f.walk():
+                if comp["k"] != "Compound" or comp.get("mo", comp.get("m")) not in ("LISTdo", "LISTdo_n"):
+                    continue
+                ini = [x for x in walk(comp) if x["k"] == "Var" and x.get("n") == "_al" and x.get("ch") and x["ch"][0] is not None and
+                       any(y["k"] == "Ref" and y.get("d") == lst.get("d") for y in walk(x["ch"][0]))]
+                if ini and any(y["k"] == "Binary" and y.get("op") in ("==", "!=") and all(strip(z) is not None and strip(z)["k"] == "Ref" for z in y["ch"])
+                               for y in walk(comp)):
+                    member = True
+                    break
+            if not member:
+                continue
+
+            def is_printer(nd, v=v):
+                for y in walk(nd):
+                    if y["k"] == "Call" and y.get("fn") not in ("LISTadd_last",):
+                        refs = {r_.get("d") for x_ in call_args(y) for r_ in walk(x_) if r_["k"] == "Ref"}
+                        if v in refs and any(p_ in refs for p_ in fparams):
+                            return True
+                return False
+            defs = [x for x in f.walk() if x["k"] == "Assign" and strip(x["ch"][0]) is not None and strip(x["ch"][0])["k"] == "Ref" and
+                    strip(x["ch"][0]).get("d") == v]
+            cpos = f.cfg.locate(c)
+            bad = None
+            for d_ in defs:
+                dpos = f.cfg.locate(d_)
+                if dpos is None or cpos is None:
+                    continue
+                if f.cfg.reaches(dpos, cpos, is_printer):
+                    bad = d_
+                    break
+            n += 1
+            res.add("R7.recorded_after_printed", "R7|%s|%s|%s<-%s" % (f.relfile(), f.name, lst.get("n"), val.get("n")), f.where(c), bad is None,
+                    "`%s` is reached only after a call that hands `%s` and the output files to a printer" % (expr_str(c)[:50], val.get("n"))
+                    if bad is None else
+                    "`%s` can be reached from `%s` (line %s) without any call that prints `%s`: the schema is recorded as written although "
+                    "no file was written for it, the catch-up loop skips it, and the files the scanner predicted for it never appear"
+                    % (expr_str(c)[:50], expr_str(bad)[:40], bad["l"], val.get("n")))
+    res.floor("R7.recorded_after_printed", "schemas put on a local done-list by the generator", n, 1)
+
+
 def run(prog, res, tier):
+    r7_recorded_after_printed(prog, res)
     gen = generator_files(prog, res)
     scan, wfn = scanner_template(prog, res)
     if gen is not None:
